@@ -1,4 +1,5 @@
 """C01 — bin archive content survives serialize -> parse (layout arithmetic agreement)."""
+import re
 from mir import fmt, walk, strip_refs, callee_names, norm
 from binser import (expand_len_locals, for_loops, root_of, rpo_index, mutations_of, affine, fmt_affine, len_atom, enclosing_loops, deep)
 from flow import guards, dom_guards, control_deps, cond_truth
@@ -84,7 +85,7 @@ def run(facts, rep, ctx):
         # data may be referred to as self.data or its clone
         norm_got = {}
         for k, v in got.items():
-            if k == ("selffield", "data") and w["data_root"] in want:
+            if k == ("selffield", "data") and w["data_root"] in want and not w.get("data_copy_resized"):
                 k = w["data_root"]
             norm_got[k] = norm_got.get(k, 0) + v
         # the pointer table is still growing when the origin is taken: string pointers are pushed later, one per string
@@ -168,6 +169,38 @@ def run(facts, rep, ctx):
         rep.violation(R4, rd.name, "label-record", "writer pushes %s, reader interprets %s" % (w["label_push_order"], r["label_read_order"]), "%s:%s" % (rd.file, rd.line))
     for bad_acc in sorted(set(r.get("label_addr_misuse", []))):
         rep.violation(R4, rd.name, "label-at-end:" + bad_acc, "the parser passes a label's address to BinArchive::%s, which rejects address == size: a label at the end of the data cannot be re-parsed (labels may sit at any address <= size)" % bad_acc, "%s:%s" % (rd.file, rd.line))
+    # per-address label order: a sort that orders by label text must compare whole buckets, not single labels
+    from binser import sort_calls
+    for sc in sort_calls(nv):
+        root = sc["target"]
+        if not root or root[0] != "local":
+            continue
+        ty = nv.local_ty(root[1]) or ""
+        m_ = re.match(r"std::vec::Vec<\((.*)\)>$", ty)
+        if not m_:
+            continue
+        comps = [c_.strip() for c_ in m_.group(1).split(", ")]
+        single = [i for i, c_ in enumerate(comps) if c_ in ("&std::string::String", "std::string::String", "&str")]
+        if len(comps) != 2 or not single or sc["spec"] is None:
+            continue
+        # is it the label sequence (derived from self.labels)?
+        d_ = nv.definition(root[1]) if len(nv.defs().get(root[1], [])) == 1 else None
+        from_labels = False
+        seen_l, todo = set(), [d_] if d_ is not None else []
+        while todo and len(seen_l) < 12:
+            t_ = todo.pop()
+            for x in walk(t_):
+                if x[0] == "field" and x[2] == "labels":
+                    from_labels = True
+                if x[0] == "local" and x[1] not in seen_l:
+                    seen_l.add(x[1])
+                    for (bi_, si_, kind_, pay_) in nv.defs().get(x[1], []):
+                        todo.append(nv.term_of_rvalue(pay_["rv"]) if kind_ == "assign" else nv.term_of_call(pay_, bi_))
+        if not from_labels:
+            continue
+        first = sc["spec"][0]
+        if first["path"][:1] == [single[0]]:
+            rep.violation(R4, ser.name, "label-sort-per-label", "serialize sorts single (address, label) entries by the label text: labels attached to one address are written in alphabetical instead of insertion order, so the per-address label order does not survive a round trip", "%s:%s" % (ser.file, sc["line"]))
     for acc, mode in sorted(set(r.get("label_store", []))):
         if mode == "replace":
             rep.violation(R4, rd.name, "label-replace:" + acc, "the label loop stores a label with BinArchive::%s, which replaces the labels already collected for that address: a table that lists one address's labels non-adjacently loses all but the last run" % acc, "%s:%s" % (rd.file, rd.line))
@@ -211,6 +244,12 @@ def writer_model(facts, rep, R1, ser):
         rep.inconc(R1, "writer: output buffer / cursors not identified")
         return None
     m["data_root"] = data_cur[1]
+    # the working copy stands for self.data only while its length is left alone
+    m["data_copy_resized"] = None
+    if data_cur[1] and data_cur[1][0] == "local":
+        for bb_, sh_, args_, t_ in mutations_of(nv, data_cur[1][1]):
+            if sh_ in ("resize", "push", "extend", "extend_from_slice", "truncate", "insert", "remove", "append", "pop", "clear", "drain", "splice", "resize_with"):
+                m["data_copy_resized"] = (sh_, t_["line"])
     evs = []
     for bb, t in nv.calls():
         if not t["args"]:
@@ -531,6 +570,56 @@ def reader_model(facts, rep, R2, rd):
                         rel_s = relation(bb)
                     elif nm.endswith("BinArchive::write_pointer"):
                         rel_p = relation(bb)
+            if rel_s is None:
+                # the test is not a plain comparison (a helper, a predicate call): evaluate the guards of the string
+                # store at representatives of the three orderings of (cell value, data size)
+                rel_s = rel_p = None
+                try:
+                    from summ import Evaluator, Unknown, Panic
+                    E_ = Evaluator(facts)
+                    sbb = [bb for bb in lp["blocks"] if nv.blocks[bb]["term"]["k"] == "call" and (callee_names(nv.blocks[bb]["term"])[1] or "").endswith("BinArchive::write_string")]
+
+                    def subst(t_, v_, d_):
+                        if not isinstance(t_, tuple) or not t_:
+                            return t_
+                        if t_[0] == "call" and t_[1].endswith("BinArchive::read_u32"):
+                            return ("const", v_, "u32")
+                        if (t_[0] == "field" and t_[1][0] == "downcast" and t_[1][2] == "Continue" and t_[1][1][0] == "call" and t_[1][1][1].endswith("Try>::branch")
+                                and t_[1][1][2] and strip_refs(t_[1][1][2][0])[0] == "call" and strip_refs(t_[1][1][2][0])[1].endswith("BinArchive::read_u32")):
+                            return ("const", v_, "u32")        # `archive.read_u32(..)?`
+                        if t_ == D:
+                            return ("const", d_, "u32")
+                        if t_[0] == "local" and len(nv.defs().get(t_[1], [])) == 1:
+                            return subst(nv.definition(t_[1]), v_, d_)
+                        return tuple(subst(x, v_, d_) if isinstance(x, tuple) else x for x in t_)
+                    table = {}
+                    for (v_, d_) in ((3, 8), (8, 8), (9, 8), (0, 0), (1, 0)):
+                        taken = True
+                        for (a_, s_, c_) in dom_guards(nv, sbb[0], cd_) if sbb else []:
+                            if a_ not in lp["blocks"]:
+                                continue
+                            term, vals, neg, dty = c_
+                            if subst(term, 1, 2) == subst(term, 5, 7):
+                                continue          # does not depend on the cell value / the data size
+                            val = E_.ev(subst(term, v_, d_), {}, nv)
+                            if isinstance(val, bool):
+                                val = int(val)
+                            if (val in vals) == neg:
+                                taken = False
+                        table[(v_, d_)] = taken
+                    if sbb and table:
+                        if all(table[k] == (k[0] > k[1]) for k in table):
+                            rel_s, rel_p = "v>d", "v<=d"
+                        elif all(table[k] == (k[0] >= k[1]) for k in table):
+                            rel_s, rel_p = "v>=d", "v<d"
+                        else:
+                            rel_s = "a test that holds at (value, size) in %s" % sorted(k for k in table if table[k])
+                            rel_p = "otherwise"
+                except Exception as ex_:
+                    import os, traceback
+                    if os.environ.get("VERIF_DEBUG"):
+                        traceback.print_exc()
+                    rel_s = rel_p = None
             if rel_s == "v>d" and rel_p in ("v<=d", None):
                 m["classify"] = "gt-data-size"
             elif rel_s is None:
